@@ -263,9 +263,23 @@ pub fn on_reach(gc_id: u64, header: usize, kind: &'static str) {
                                 },
                             })
                             .collect();
+                        let root = |gc: u64| {
+                            let mut gc = gc;
+                            while let Some(p) = s.parents.get(&gc) {
+                                gc = *p;
+                            }
+                            gc
+                        };
+                        let relation = if root(parent_owner) != root(child_owner) {
+                            "a heap of another VM"
+                        } else if is_ancestor_or_self(&s, parent_owner, child_owner) {
+                            "a descendant heap"
+                        } else {
+                            "a heap of another branch of the thread tree"
+                        };
                         let message = format!(
-                            "heap-isolation: object in heap {} points into heap {} which is neither it nor one of its ancestors (from path {} -> {}@depth{})",
-                            parent_owner, child_owner, path.join(" -> "), short(kind), depth(child_owner)
+                            "heap-isolation: object in heap {} points into heap {} ({}) which is neither it nor one of its ancestors (from path {} -> {}@depth{})",
+                            parent_owner, child_owner, relation, path.join(" -> "), short(kind), depth(child_owner)
                         );
                         let message = if std::env::var_os("GLUON_VERIF_BACKTRACE").is_some() {
                             format!("{}\n{}", message, std::backtrace::Backtrace::force_capture())
